@@ -2,10 +2,7 @@
 
 use winnow::{
     ascii::space0,
-    combinator::{
-        alt, delimited, dispatch, opt, peek, permutation, preceded, separated_foldl1, terminated,
-        trace,
-    },
+    combinator::{alt, delimited, dispatch, opt, peek, permutation, preceded, terminated, trace},
     error::{FromExternalError, ParserError},
     stream::{AsChar, Stream, StreamIsPartial},
     token::{any, one_of},
@@ -75,11 +72,36 @@ impl ParenDepth {
             if d.get() >= MAX_PAREN_DEPTH {
                 None
             } else {
+                if d.get() == 0 {
+                    // A new top-level expression starts.
+                    EXPR_OPERATORS.with(|n| n.set(0));
+                }
                 d.set(d.get() + 1);
                 Some(ParenDepth)
             }
         })
     }
+}
+
+/// Maximum number of binary operators accepted in one (top-level) expression.
+/// `a + b + c ...` is a left-deep tree, as deep as it has operators,
+/// so this is limited for the same reason as [`MAX_PAREN_DEPTH`].
+const MAX_EXPR_OPERATORS: usize = 1024;
+
+thread_local! {
+    static EXPR_OPERATORS: std::cell::Cell<usize> = const { std::cell::Cell::new(0) };
+}
+
+/// Counts one more binary operator, unless the expression already has too many.
+fn count_operator() -> bool {
+    EXPR_OPERATORS.with(|n| {
+        if n.get() >= MAX_EXPR_OPERATORS {
+            false
+        } else {
+            n.set(n.get() + 1);
+            true
+        }
+    })
 }
 
 impl Drop for ParenDepth {
@@ -241,7 +263,7 @@ where
 /// Parses `x (op x)*` format, and feed the list into the given function.
 /// This is similar to foldl, so it'll be evaluated as `f(f(...f(x, x), x), ... x)))`.
 /// operand parser needs to be Copy so that it can be used twice.
-fn infixl<'i, I, E, F, G>(operator: F, operand: G) -> impl Parser<I, expr::Expr<'i>, E>
+fn infixl<'i, I, E, F, G>(mut operator: F, mut operand: G) -> impl Parser<I, expr::Expr<'i>, E>
 where
     I: Stream + StreamIsPartial + Clone,
     E: ParserError<I>,
@@ -250,20 +272,28 @@ where
     I: Stream + StreamIsPartial + Clone,
     <I as Stream>::Token: AsChar,
 {
-    trace(
-        "infixl",
-        separated_foldl1(
-            operand,
-            delimited(space0, operator, space0),
-            |lhs, op, rhs| {
-                expr::Expr::Binary(expr::BinaryOpExpr {
-                    lhs: Box::new(lhs),
-                    op,
-                    rhs: Box::new(rhs),
-                })
-            },
-        ),
-    )
+    trace("infixl", move |input: &mut I| {
+        let mut lhs = operand.parse_next(input)?;
+        loop {
+            let start = input.checkpoint();
+            let Ok(op) = delimited(space0, operator.by_ref(), space0).parse_next(input) else {
+                input.reset(&start);
+                return Ok(lhs);
+            };
+            if !count_operator() {
+                return Err(E::from_input(input));
+            }
+            let Ok(rhs) = operand.parse_next(input) else {
+                input.reset(&start);
+                return Ok(lhs);
+            };
+            lhs = expr::Expr::Binary(expr::BinaryOpExpr {
+                lhs: Box::new(lhs),
+                op,
+                rhs: Box::new(rhs),
+            });
+        }
+    })
 }
 
 #[cfg(test)]
